@@ -405,6 +405,12 @@ func (s *Store) mergeSegStacks(footer *Footer, splicePoint int,
 	}
 
 	if footerSS != nil {
+		// The splicePoint was chosen from the top-level collection's
+		// segments; a child collection can have fewer than that.
+		if splicePoint > len(footerSS.a) {
+			splicePoint = len(footerSS.a)
+		}
+
 		rv.a = append(rv.a, footerSS.a[splicePoint:]...)
 
 		if splicePoint > 0 {
@@ -444,6 +450,12 @@ func (s *Store) mergeSegStacks(footer *Footer, splicePoint int,
 }
 
 func (right *Footer) spliceFooter(left *Footer, splicePoint int) {
+	// Mirrors mergeSegStacks(): a child collection can have fewer
+	// segments than the top-level collection's splicePoint.
+	if splicePoint > len(left.SegmentLocs) {
+		splicePoint = len(left.SegmentLocs)
+	}
+
 	slocs := make([]SegmentLoc, splicePoint, splicePoint+len(right.SegmentLocs))
 	copy(slocs, left.SegmentLocs[0:splicePoint])
 	slocs = append(slocs, right.SegmentLocs...)
